@@ -1,15 +1,21 @@
 #!/bin/bash
-# tools/try_mutant.sh <patch.diff> <ID> [<ID>...]  — developer tool: apply a seeded change to /repo,
-# run the quick checks named, undo the change. Prints one line per check: CAUGHT / MISSED / other.
+# tools/try_mutant.sh <patch.diff> <ID> [<ID>...]  — developer tool: apply a seeded change to a scratch
+# worktree of /repo's HEAD (outside /repo and /verif), run the quick checks named against it
+# (VERIF_REPO), remove the worktree. Prints one line per check: CAUGHT / MISSED / other.
+# (The documented way - git -C /repo apply; ./check; git -C /repo checkout -- . - gives the same result;
+# the worktree only keeps /repo free for runs in the background.)
 PATCH="$1"; shift
-cd /repo || exit 3
-if [ -n "$(git status --porcelain --untracked-files=no)" ]; then echo "/repo is dirty"; exit 3; fi
+WT=$(mktemp -d /tmp/mutwt-XXXXXX); rmdir "$WT"
+git -C /repo worktree add -f "$WT" HEAD -q || exit 3
+trap 'git -C /repo worktree remove --force "$WT" 2>/dev/null; rm -rf "$WT"' EXIT
+cd "$WT" || exit 3
 if ! git apply --3way "$PATCH" 2>/tmp/apply.err; then
-  if ! git apply "$PATCH" 2>>/tmp/apply.err; then echo "PATCH DOES NOT APPLY: $(head -3 /tmp/apply.err)"; git reset -q --hard HEAD; exit 4; fi
+  git reset -q --hard HEAD
+  if ! git apply "$PATCH" 2>>/tmp/apply.err; then echo "PATCH DOES NOT APPLY: $(head -3 /tmp/apply.err)"; exit 4; fi
 fi
 git reset -q
 for ID in "$@"; do
-  out=$(cd /verif && VERIF_SEED=${VERIF_SEED:-1} ./check "$ID" ${TIER:-quick} 2>&1); rc=$?
+  out=$(cd /verif && VERIF_OUT="$WT/.verif-out" VERIF_REPO="$WT" VERIF_SEED=${VERIF_SEED:-1} ./check "$ID" ${TIER:-quick} 2>&1); rc=$?
   v=$(echo "$out" | grep -c '^VIOLATION')
   case $rc in
     1) echo "$ID: CAUGHT ($v violation lines): $(echo "$out" | grep 'violation kind' | head -2 | cut -c1-260)";;
@@ -17,5 +23,3 @@ for ID in "$@"; do
     *) echo "$ID: rc=$rc $(echo "$out" | tail -3 | cut -c1-300)";;
   esac
 done
-cd /repo && git reset -q --hard HEAD
-git status --porcelain | head -3
